@@ -381,7 +381,54 @@ def fam_concave_prism(ctx, rng):
                 k, v, float(ref)), desc); return
 
 
-FAMILIES = [(fam_concave_prism, 6), (fam_one_reflex, 12), (fam_grid_mesh, 20), (fam_polygon, 40), (fam_face, 25), (fam_mesh, 25), (quad_mesh_general, 10), (fam_polyface, 12), (fam_mixed_solid, 40),
+def hash_cell_shape(rng):
+    """a face with one hole and 85 vertices (more than 80: the triangulation uses its z-order hash) whose re-entrant boundary vertex p
+    sits a small fraction of a hash cell away from the far corner c of a would-be ear (a, b, c), inside that triangle"""
+    jx, jy = G.dy(rng.uniform(-2, 2), 6), G.dy(rng.uniform(-2, 2), 6)
+    a, b, c = (0.0, 0.0), (5000.0, -1000.0), (6000.25 + jx, 5000.25 + jy)
+    step = rng.choice([0.0625, 0.09375, 0.125, 0.15625])
+    pp = (c[0] - step, c[1] - 1.25 * step)
+    boundary = [a, b, c, pp, (-6000.0, 7000.0)]
+    for k in range(50):
+        ang = math.radians(125 + 175 * k / 49)
+        boundary.append((round(-3000 + 6500 * math.cos(ang), 3), round(-1500 + 6500 * math.sin(ang), 3)))
+    hole = [(round(-3000 + 1500 * math.cos(2 * math.pi * k / 30), 3), round(-1500 + 1500 * math.sin(2 * math.pi * k / 30), 3)) for k in range(30)]
+    # exact symmetries of the lattice: quarter turns and a mirror, a dyadic scale
+    # (only the orientation in which the hashed scan walks from the ear towards larger z-order keys exercises the bound; other
+    # placements of the same shape are covered by the general families)
+    rot = 0; mir = False; k_ = rng.choice([1.0, 1.0, 0.5, 2.0])
+    def T(q_):
+        x, y = q_
+        if mir: x = -x
+        for _ in range(rot): x, y = -y, x
+        return (x * k_, y * k_)
+    boundary = [T(q_) for q_ in boundary]; hole = [T(q_) for q_ in hole]
+    if mir:
+        boundary = boundary[::-1]; hole = hole[::-1]
+    return boundary, [hole]
+
+
+def fam_hash_cell(ctx, rng):
+    b, hs = hash_cell_shape(rng)
+    fb = [X.fpt(p) for p in b]; fh = [[X.fpt(p) for p in h] for h in hs]
+    if not G.certify_polygon(b) or not all(X.winding_inside(fb, q_) is True for h in fh for q_ in h):
+        return
+    z = G.dy(rng.uniform(-50, 50))
+    face = Face3D([P3((p[0], p[1], z)) for p in b], holes=[[P3((p[0], p[1], z)) for p in h] for h in hs])
+    (cx, cy), ea = centroid_region(fb, fh)
+    desc = {'boundary2d': b, 'holes2d': hs, 'z': z}
+    ctx.count('face3d.hash_cell', key=(len(b), tuple(b[2])), sample={'vertices': len(b) + len(hs[0])}, nontrivial=True)
+    got = face.centroid
+    sc = max(abs(float(cx)), abs(float(cy)), 1.0)
+    if max(abs(got.x - float(cx)), abs(got.y - float(cy)), abs(got.z - z)) > 1e-9 * sc:
+        ctx.violation('face3d:centroid:hashed_ear', 'centroid %r expected %r (85 vertices, a re-entrant vertex next to an ear corner)' % (
+            got, (float(cx), float(cy), z)), desc); return
+    ta = face.triangulated_mesh3d.area
+    if abs(ta - float(ea)) > 1e-9 * float(ea):
+        ctx.violation('face3d:triangulated_area:hashed_ear', 'triangulated mesh area %r, face area %r' % (ta, float(ea)), desc)
+
+
+FAMILIES = [(fam_hash_cell, 16), (fam_concave_prism, 6), (fam_one_reflex, 12), (fam_grid_mesh, 20), (fam_polygon, 40), (fam_face, 25), (fam_mesh, 25), (quad_mesh_general, 10), (fam_polyface, 12), (fam_mixed_solid, 40),
             (fam_closed_forms, 15)]
 
 
